@@ -145,7 +145,9 @@ def use_lemma(interp, name, args):
     stmt, _ = LEMMAS[name]
     zargs = []
     for a in args:
-        if isinstance(a, SArr):
+        if isinstance(a, SArr) and name.startswith("count_"):
+            zargs.append(materialize_int(ctx, a))
+        elif isinstance(a, SArr):
             zargs.append(materialize(ctx, a))
         else:
             e = lift(a)
@@ -166,3 +168,72 @@ def use_lemma(interp, name, args):
 def _real_positions(name, n):
     pos = {"sum_const": [False, True, False], "sum_scale": [False, False, True, False]}
     return pos.get(name, [False] * n)
+
+
+# =============================================================================
+# counting occurrences in integer arrays:  CNT(a, k, v) = #{ j < k | a[j] == v }
+# =============================================================================
+IARR = z3.ArraySort(I, I)
+CNT = z3.Function("CNT", IARR, I, I, I)
+
+
+def count_def(a, k):
+    """defining equations of CNT instantiated at position k (for every value v)"""
+    v = z3.Int("v!c")
+    return z3.ForAll([v], z3.And(CNT(a, 0, v) == 0,
+                                 z3.Implies(k >= 0, CNT(a, k + 1, v) == CNT(a, k, v) + z3.If(a[k] == v, 1, 0))))
+
+
+def _mk_count():
+    a = z3.Const("ca", IARR)
+    j, k, v = z3.Ints("cj ck cv")
+    L = {}
+    # count_nondec: 0 <= j <= k  =>  CNT(a,j,v) <= CNT(a,k,v)      (induction on k >= j)
+    L["count_nondec"] = (
+        lambda A: _all3(lambda J, K, V: z3.Implies(z3.And(0 <= J, J <= K), CNT(A, J, V) <= CNT(A, K, V))),
+        [("base", [j >= 0], CNT(a, j, v) <= CNT(a, j, v)),
+         ("step", [0 <= j, j <= k, CNT(a, j, v) <= CNT(a, k, v), count_def(a, k)], CNT(a, j, v) <= CNT(a, k + 1, v))])
+    # count_mono: 0 <= j < k and a[j] == v  =>  CNT(a,j,v) < CNT(a,k,v)   (induction on k > j)
+    L["count_mono"] = (
+        lambda A: _all3(lambda J, K, V: z3.Implies(z3.And(0 <= J, J < K, A[J] == V), CNT(A, J, V) < CNT(A, K, V))),
+        [("base", [j >= 0, a[j] == v, count_def(a, j)], CNT(a, j, v) < CNT(a, j + 1, v)),
+         ("step", [0 <= j, j < k, a[j] == v, CNT(a, j, v) < CNT(a, k, v), count_def(a, k)], CNT(a, j, v) < CNT(a, k + 1, v))])
+    # count_bound: 0 <= k  =>  0 <= CNT(a,k,v) <= k
+    L["count_bound"] = (
+        lambda A: _all3(lambda J, K, V: z3.Implies(0 <= K, z3.And(0 <= CNT(A, K, V), CNT(A, K, V) <= K))),
+        [("base", [count_def(a, z3.IntVal(0))], z3.And(0 <= CNT(a, 0, v), CNT(a, 0, v) <= 0)),
+         ("step", [0 <= k, 0 <= CNT(a, k, v), CNT(a, k, v) <= k, count_def(a, k)],
+          z3.And(0 <= CNT(a, k + 1, v), CNT(a, k + 1, v) <= k + 1))])
+    return L
+
+
+def _all3(body):
+    J, K, V = z3.Ints("J!c K!c V!c")
+    return z3.ForAll([J, K, V], body(J, K, V))
+
+
+LEMMAS.update(_mk_count())
+
+
+def materialize_int(ctx, arr):
+    """integer SMT array constant A with forall i in [0,n). A[i] == arr[i]"""
+    n = arr.shape[0]
+    probe = z3.Int("i!m")
+    ctx.bound_depth = getattr(ctx, "bound_depth", 0) + 1
+    try:
+        body = lift(arr.fn(Sym(probe)))
+    finally:
+        ctx.bound_depth -= 1
+    key = ("int", str(body.sexpr()), str(lift(n)))
+    cache = ctx.ghost.setdefault("materialized_int", {})
+    if key in cache:
+        return cache[key]
+    A = z3.Const(ctx.fresh_name("iarr"), IARR)
+    ctx.assume(z3.ForAll([probe], z3.Implies(z3.And(probe >= 0, probe < lift(n)), A[probe] == body)))
+    cache[key] = A
+    return A
+
+
+def cnt(ctx, arr, k, v):
+    A = materialize_int(ctx, arr)
+    return Sym(CNT(A, lift(k), lift(v)))
